@@ -254,7 +254,7 @@ int main(int argc, char** argv)
 			bool hi = dof / 2 > 100;
 			double sd = std::sqrt(2 * dof);
 			std::vector<double> xs;
-			double lo = dof < 2 ? 1e-3 : 0.0;	// below two degrees of freedom the density is unbounded at zero: increments are checked from 1e-3 on
+			double lo = dof < 8 ? 1e-3 : 0.0;	// the density behaves like x^(dof/2-1) at zero (unbounded below two degrees of freedom, non-smooth below eight): increments are checked from 1e-3 on, where the harness quadrature (geometric panels) is accurate
 			for(int k = 0; k < 14; k++)
 				xs.push_back(std::max(lo, dof + sd * g.uni(-6, 9)));
 			xs.push_back(std::max(lo, dof - 2.0));
